@@ -435,14 +435,52 @@ def run(ck, m):
             if isinstance(n, ast.Compare) and len(n.ops) == 1 and "_KITTY_VERSION" in norm(n.left) and isinstance(n.comparators[0], ast.Tuple):
                 out.append((type(n.ops[0]).__name__, tuple(e.value for e in n.comparators[0].elts), n))
         return out
-    a, b = vcmp(cf), vcmp(kd)
-    ck.expect(len(a) == 1 and len(b) == 1, "kitty: version predicates of _clear_frame/_display_animated not recognised")
-    if len(a) == 1 and len(b) == 1:
-        comp = {("LtE", "Gt"), ("Lt", "GtE")}
-        ret_true = any(isinstance(r, ast.Return) and norm(r.value) == "True" and any(norm(t) == norm(a[0][2]._p if isinstance(a[0][2]._p, ast.BoolOp) else a[0][2]) and bb for t, bb in guards(r)) for r in body_walk(cf))
-        ck.ob("R5", a[0][2], (a[0][0], b[0][0]) in comp and a[0][1] == b[0][1] and ret_true,
-              f"_clear_frame clears explicitly for version {a[0][0]} {a[0][1]} while _display_animated uses blend=False for version {b[0][0]} {b[0][1]}: the predicates must be complementary, "
-              "otherwise some kitty version gets neither and frames pile up on the same cells", stmt="kitty: clear-frame / blend=False predicates complementary")
+    # decided by evaluation over kitty versions (tuples ordered as Python orders them; None = not kitty): (1) _clear_frame returns true exactly when it
+    # has issued the clear, (2) for every kitty version exactly one of {explicit clear, blend=False} applies
+    from tiv.sem import tconds as _tc5
+    from tiv.absdom import EvUnk as _EvU5, ev as _ev5
+    clr0 = next((c for c in body_walk(cf) if isinstance(c, ast.Call) and norm(c.func).endswith(".clear")), None)
+    rets5 = [r for r in body_walk(cf) if isinstance(r, ast.Return) and r.value is not None]
+    bl5 = [st for t, st in stores_in(ast.Module(body=kd.body, type_ignores=[])) if isinstance(t, ast.Subscript) and isinstance(t.slice, ast.Constant) and t.slice.value == "blend" and norm(st.value) == "False"]
+    ck.expect(clr0 is not None and bool(rets5) and len(bl5) == 1, "kitty: clear call / returns of _clear_frame / the blend=False store of _display_animated not recognised")
+    if clr0 is not None and rets5 and len(bl5) == 1:
+        P5 = lambda src: ast.parse(src, mode="eval").body
+        cc5 = [P5(c_) for c_ in _tc5(cf, clr0)]
+        rr5 = [([P5(c_) for c_ in _tc5(cf, r)], trace(cf, r.value, use=r)) for r in rets5]
+        bb5 = [P5(c_) for c_ in _tc5(kd, bl5[0])]
+        bad5 = None
+
+        def _all5(conjs, env):
+            """conjunction of an unordered set of conjuncts: false as soon as one is false (an unevaluable one - `None <= (0, 25, 0)` - then does not matter)"""
+            unk = None
+            for c_ in conjs:
+                try:
+                    if not _ev5(c_, env):
+                        return False
+                except _EvU5 as ex__:
+                    unk = ex__
+            if unk is not None:
+                raise unk
+            return True
+        try:
+            for v5 in (None, (0, 19, 3), (0, 20, 0), (0, 24, 9), (0, 25, 0), (0, 25, 1), (0, 26, 0), (1, 0, 0)):
+                env5 = {k_: v5 for k_ in ("cls._KITTY_VERSION", "self._KITTY_VERSION", "__class__._KITTY_VERSION", "type(self)._KITTY_VERSION")}
+                cleared = _all5(cc5, env5)
+                returned = any(_all5(cs_, env5) and bool(_ev5(v_, env5)) for cs_, v_ in rr5)
+                if cleared != returned:
+                    bad5 = f"for kitty version {v5} _clear_frame {'clears' if cleared else 'does not clear'} but returns {returned}"
+                    break
+                if v5 is not None:
+                    blend_off = _all5(bb5, env5)
+                    if cleared == blend_off:
+                        bad5 = f"kitty {'.'.join(map(str, v5))} gets {'both the explicit clear and blend=False' if cleared else 'neither the explicit clear nor blend=False'}"
+                        break
+        except _EvU5 as ex_:
+            bad5 = None
+            ck.expect(False, f"kitty: the version predicates cannot be evaluated ({ex_})")
+        else:
+            ck.ob("R5", enclosing_stmt(clr0), bad5 is None, f"per-frame clearing is inconsistent: {bad5}: the predicates of _clear_frame and _display_animated must be complementary over kitty versions "
+                  "(otherwise some version gets neither and frames pile up on the same cells) and _clear_frame must report what it did", stmt="kitty: clear-frame / blend=False predicates complementary")
 
     # ... and the explicit clear deletes exactly the z-index every animation frame is drawn on: _display_animated forces that z-index
     # unconditionally (a caller-supplied one would never be cleared)
@@ -458,7 +496,7 @@ def run(ck, m):
             if depth > 4:
                 return None
             if isinstance(e, ast.Name):
-                defs = [st_ for t_, st_ in stores_in(ast.Module(body=kd.body, type_ignores=[])) if isinstance(t_, ast.Name) and t_.id == e.id and isinstance(st_, ast.Assign)]
+                defs = [st_ for t_, st_ in stores_in(ast.Module(body=kd.body, type_ignores=[])) if isinstance(t_, ast.Name) and t_.id == e.id and isinstance(st_, (ast.Assign, ast.AnnAssign))]
                 if len(defs) == 1 and not _conds(defs[0]):
                     r_ = provider(defs[0].value, depth + 1)
                     return (r_[0], defs[0]) if r_ else None
@@ -473,7 +511,18 @@ def run(ck, m):
                 return found
             return None
         from tiv.astutil import conds as _conds
-        if sup_ is not None:
+        # ... or through `kwargs.update(overrides)` / `kwargs.update(z_index=<value>)`, unconditionally, before the call
+        for u_ in [c for c in body_walk(kd) if isinstance(c, ast.Call) and norm(c.func) == "kwargs.update" and not _conds(c)]:
+            pr = None
+            for k_ in u_.keywords:
+                if k_.arg == "z_index":
+                    pr = (k_.value, None)
+            if pr is None and len(u_.args) == 1:
+                pr = provider(u_.args[0])
+            if pr is not None:
+                zst = [ast.copy_location(ast.Assign(targets=[ast.parse("kwargs['z_index']", mode="eval").body], value=pr[0]), enclosing_stmt(u_))]
+                zst[0]._p = enclosing_stmt(u_)._p
+        if sup_ is not None and not zst:
             for k_ in reversed(sup_.keywords):
                 if k_.arg is None:
                     pr = provider(k_.value)
